@@ -59,9 +59,8 @@ class H(common.Harness):
                 if kj in ("short", "id"):
                     eng.add(z3.Or(e <= fsj, s >= ej))
                 if kj == "full_case" and kind == "full_case":
-                    # full-span starts of full case citations are monotone in document order: the backward scans of add_defendant stop at
-                    # the nearest stop word, which a later citation reaches no earlier than a previous one
-                    # (argued in DESIGN.md, C03; an assumption of this harness, not a solver result)
+                    # full-span starts of full case citations are monotone in document order (lemma
+                    # C03lemma:mono, discharged by the extraction harness on two citations sharing a window)
                     eng.add(fsj <= fs)
                 if kj == "ref":
                     eng.add(z3.Not(z3.And(sj == s, ej == e)))
@@ -367,7 +366,7 @@ def check(rep):
         "0 <= full start <= span start < span end <= full end (C02)",
         "references: span == full span, start >= span end of some full case citation in the list (C19 clause b); a reference's span is never identical to a non-reference span",
         "short/id citations: full span = antecedent words + span, crossing no other special token (match_on_tokens strings_only)",
-        "full-span starts of full case citations are monotone in document order (argued in DESIGN.md, not solver-checked)",
+        "full-span starts of full case citations are monotone in document order (lemma C03lemma:mono, discharged in this run by the extraction harness: add_defendant + add_pre_citation on two citations with <= 1/2 pieces before and between them)",
     ]
     agg = common.explore_split("vf.harness.c03", {"M": M}, depth=4)
     rep.merge_explore("filter", agg)
